@@ -260,7 +260,43 @@ fn check_value(ctx: &mut Ctx, v: Decimal) {
 
 pub fn run(ctx: &mut Ctx) {
     let prop = "C17";
-    ctx.ev.rule = "part 1: generated values (exact half-penny midpoints, ±1 in the 4th decimal around them, zero, negative, ≥ £1,000,000, tiny, 10-decimal): format_gbp's string must have the shape [-]£d,ddd.dd and read back as the value rounded to pence with midpoints away from zero; the JSON money string (the serde serialiser used by --format json and the MCP tools) must read back as the full value or that same rounding; both compared with the Lean formatter. Amounts in other currencies (USD, EUR, JPY, KWD, CHF, BHD, KRW, CLF: ISO exponents 0, 2, 3, 4; half-unit midpoints, ±1 around them, negatives): format_currency_amount reads back as the amount rounded to the currency's minor units with midpoints away from zero, compared with the Lean fmtCurrencyAmount; and the real text report's ASSET EVENTS lines for USD/JPY/KWD midpoint amounts. Quantities: format_decimal_trimmed reads back exactly; dates DD/MM/YYYY; tax years YYYY/YY in text, Display and JSON for every year 1900–2100. part 2: generated ledgers: every figure of the plain-text summary rows equals format_gbp of the report's value; the JSON report's strings equal the same rounding and every quantity in it (disposals, legs, holdings) is exact; both list the same years, disposals and legs; PDF: the text runs of the compiled Typst document (hook verif_text_runs): every £ figure, in template order (summary, disposal headers, Section 104 unit costs, unit prices, gross/fees/net, cost, result, holdings' average costs, echoed prices, fees and event values), equals the exact value rounded to pence with midpoints away from zero and equals the Lean fmtGbp; years, disposal headers, quantities to six decimals, dates and legs appear in report order. Non-trivial = values exactly on a half-penny, and reports with ≥ 2 years; distinct by value/ledger.".into();
+    ctx.ev.rule = "part 1: generated values (exact half-penny midpoints, ±1 in the 4th decimal around them, zero, negative, ≥ £1,000,000, tiny, 10-decimal): format_gbp's string must have the shape [-]£d,ddd.dd and read back as the value rounded to pence with midpoints away from zero; the JSON money string (the serde serialiser used by --format json and the MCP tools) must read back as the full value or that same rounding; both compared with the Lean formatter. Amounts in other currencies (USD, EUR, JPY, KWD, CHF, BHD, KRW, CLF: ISO exponents 0, 2, 3, 4; half-unit midpoints, ±1 around them, negatives): format_currency_amount reads back as the amount rounded to the currency's minor units with midpoints away from zero, compared with the Lean fmtCurrencyAmount; and the real text report's ASSET EVENTS lines for USD/JPY/KWD midpoint amounts. Quantities: format_decimal_trimmed reads back exactly; dates DD/MM/YYYY; tax years YYYY/YY in text, Display and JSON for every year 1900–2100. MCP: explain_matching's figures over the real server for ledgers with three- and four-decimal prices and fees: the library's value in full or rounded half away. part 2: generated ledgers: every figure of the plain-text summary rows equals format_gbp of the report's value; the JSON report's strings equal the same rounding and every quantity in it (disposals, legs, holdings) is exact; both list the same years, disposals and legs; PDF: the text runs of the compiled Typst document (hook verif_text_runs): every £ figure, in template order (summary, disposal headers, Section 104 unit costs, unit prices, gross/fees/net, cost, result, holdings' average costs, echoed prices, fees and event values), equals the exact value rounded to pence with midpoints away from zero and equals the Lean fmtGbp; years, disposal headers, quantities to six decimals, dates and legs appear in report order. Non-trivial = values exactly on a half-penny, and reports with ≥ 2 years; distinct by value/ledger.".into();
+
+    // the MCP explain_matching tool shows each leg's cost and gain, the disposal's proceeds and its total result:
+    // each must be the library's value in full or rounded to pence with midpoints away from zero (figures with
+    // a third decimal of 5–9 tell rounding from truncation)
+    if crate::cli::available() {
+        use super::c20::{call, session, result_text};
+        let mut rr = crate::rng::Rng::new(ctx.seed ^ 0xC17E);
+        for i in 0..ctx.n(6, 120) {
+            let (q1, q2) = (Decimal::from(rr.range(3, 40)), Decimal::from(rr.range(3, 40)));
+            let p1 = Decimal::new(rr.range(10_000, 99_999), 4);
+            let f1 = Decimal::new(rr.range(1, 999), 3);
+            let sell = Decimal::from(rr.range(1, 3)).min(q1);
+            let ps = Decimal::new(rr.range(10_005, 99_995), 3);
+            let text = format!("2023-01-10 BUY ACME {q1} @ {p1} FEES {f1}\n2023-02-10 BUY ACME {q2} @ {} FEES 0.005\n2023-06-01 SELL ACME {sell} @ {ps} FEES 0.125\n", Decimal::new(rr.range(10_000, 99_999), 4));
+            let Ok(txs) = cgt_core::parser::parse_file(&text) else { continue };
+            let cfg = run_impl::config_from(&run_impl::embedded_exemptions());
+            let Ok(rep) = cgt_core::calculator::calculate(&txs, None, None, &cfg) else { continue };
+            let Some(d) = rep.tax_years.iter().flat_map(|y| y.disposals.iter()).next() else { continue };
+            ctx.ev.evaluations += 1;
+            ctx.ev.count("mcp-explanations");
+            let s = session(&[call(1, "explain_matching", json!({"transactions": text, "ticker": "ACME", "disposal_date": "2023-06-01"}))], false);
+            let Some(ans) = s.responses.iter().find(|v| v["id"].as_u64() == Some(1)).and_then(result_text) else { ctx.ev.violation("oracle", "explain_matching gave no result for a listed disposal".into(), format!("# property C17\n{text}")); continue };
+            let e: serde_json::Value = serde_json::from_str(&ans).unwrap_or_default();
+            let shown_ok = |v: &serde_json::Value, w: Decimal| v.as_str().and_then(|x| x.parse::<Decimal>().ok()).map(|x| { let (xq, wq) = (Q::from_dec(x), Q::from_dec(w)); xq.eq(&wq) || xq.eq(&half_away_pence(&wq)) }).unwrap_or(false);
+            let mut bad: Option<String> = None;
+            if !shown_ok(&e["proceeds"], d.proceeds) { bad = Some(format!("proceeds {} shown as {}", d.proceeds, e["proceeds"])); }
+            let total: Decimal = d.matches.iter().map(|m| m.gain_or_loss).sum();
+            if !shown_ok(&e["total_gain_or_loss"], total) { bad = Some(format!("total result {} shown as {}", total, e["total_gain_or_loss"])); }
+            for (k, m) in d.matches.iter().enumerate() {
+                if !shown_ok(&e["matches"][k]["allowable_cost"], m.allowable_cost) { bad = Some(format!("leg {k} allowable cost {} shown as {}", m.allowable_cost, e["matches"][k]["allowable_cost"])); }
+                if !shown_ok(&e["matches"][k]["gain_or_loss"], m.gain_or_loss) { bad = Some(format!("leg {k} gain {} shown as {}", m.gain_or_loss, e["matches"][k]["gain_or_loss"])); }
+            }
+            if let Some(what) = bad { ctx.ev.violation("oracle", format!("MCP explain_matching: {what}"), format!("# property C17\n# oracle: explain_matching for ACME 2023-06-01 over `cgt-tool mcp`: {what}\n{text}")); }
+            let _ = i;
+        }
+    }
 
     // the tax-year label of every front-end, for every year: JSON (serde) and text agree on YYYY/YY with a
     // two-digit second part (2008/09, 1999/00, 2099/00)
